@@ -1,7 +1,7 @@
 #!/bin/sh
 # runs every check of a tier on the current tree; prints one line per property
 TIER=${1:-quick}
-cd "$(dirname "$0")/.."
+cd "$(dirname "$0")/.." && mkdir -p work
 for p in C01 C02 C03 C04 C05 C06 C07 C08 C09 C10 C11 C12 C13 C14 C15 C16 C17 C18; do
     S=$(date +%s)
     ./check $p $TIER > work/out-$p.log 2>&1
